@@ -160,7 +160,12 @@ class Gen:
         k = r.random()
         if "markup" in self.f and k < 0.12:
             # safe strings: a Markup value from the data or a |safe-marked string
-            return N("m1") if r.random() < 0.5 else ["filter", self.str_(d - 1), "safe", [], []]
+            k2 = r.random()
+            if k2 < 0.2:
+                # str.format on a safe template string: the result stays safe, arguments are escaped
+                tpl = ["filter", C(r.choice(["<b>{}</b>", "{0}-{0}", "[{}|{}]", "<i>"])), "safe", [], []]
+                return ["call", ["attr", tpl, "format"], [self.str_(0), self.str_(0)], []]
+            return N("m1") if k2 < 0.6 else ["filter", self.str_(d - 1), "safe", [], []]
         if k < 0.35:
             return ["bin", "~", self.any_(d - 1), self.any_(d - 1)]
         if k < 0.45:
